@@ -67,3 +67,84 @@ def run_vm(ctx, seq_cases, n=48, shards=8, timeout=900):
         return 0, []
     lines = ["COQ %d %s" % (i, c[4:]) for i, c in enumerate(sample)]
     return _check(ctx, lines, len(sample), "vm", shards, timeout)
+
+
+TRACE_HEADER = """From Coq Require Import List NArith.
+From Coq.Strings Require Import Byte.
+From RaftLog Require Import Base.Bytes Base.Crc32 Model.Types Model.Codec Model.Cache Model.Core Model.Recover Model.Run Model.Sys.
+Import ListNotations.
+Inductive wstep := WEv (e : zev) | WReopen (cfg : config).
+Fixpoint wrun (z : sys2) (ws : list wstep) : option (sys2 * list vis) :=
+  match ws with
+  | [] => Some (z, [])
+  | WEv e :: r =>
+    match zstep z e with
+    | None => None
+    | Some (z1, v1) => match wrun z1 r with None => None | Some (z2, v2) => Some (z2, v1 ++ v2) end
+    end
+  | WReopen cfg :: r =>
+    match open_dir cfg (z_disk z) with OpenOk y => wrun (sys2_of y) r | OpenErr _ _ => None end
+  end.
+Definition wrun0 (cfg : config) (ws : list wstep) :=
+  match zinit cfg [] with Some z0 => wrun z0 ws | None => None end.
+Definition notres (v : vis) := match v with VResult _ => false | _ => true end.
+Definition tsum1 (r : option (sys2 * list vis)) :=
+  match r with None => None | Some (_, vs) => Some (filter notres vs) end.
+Definition tsum2 (r : option (sys2 * list vis)) :=
+  match r with
+  | None => None
+  | Some (z, vs) => Some (filter notres vs,
+       map (fun f => (f_id f, N.of_nat (length (f_data f)), crc32 (f_data f))) (z_disk z))
+  end.
+"""
+
+
+def run_vm_trace(ctx, cases, logs, rep, n=12, shards=8, timeout=900):
+    """K-trace witnesses: for a sample of the traces the replay accepted, the run of Model/Sys.v
+    that the search found (caller events, worker steps, batch compositions, reopen) is
+    re-executed by vm_compute inside Coq; its visible events must be the recorded system calls
+    and callbacks and its final directory the recorded one. Returns (checked, failures)."""
+    cand = []
+    for c, l, r in zip(cases, logs, rep):
+        if r.startswith("ok") and "worker-dead" not in r and "open-refused" not in r and len(l) < 6000 \
+                and "burst" not in c and "cfault" not in c:
+            cfg = c.split("|")[0].replace("TRACE", "").strip()
+            cand.append((len(l), cfg, l))
+    cand.sort()
+    sample = cand[-n:]
+    if not sample:
+        return 0, []
+    lines = ["COQTRACE %d %s | %s" % (i, cfg, l) for i, (_, cfg, l) in enumerate(sample)]
+    exs = C.run_model(lines, ctx.wd, "vmtrace-terms")
+    exs = [e for e in exs if e.startswith("Example")]
+    if not exs:
+        return 0, []
+    global HEADER
+    keep = HEADER
+    HEADER = TRACE_HEADER
+    try:
+        d = os.path.join(ctx.wd, "vmtrace")
+        os.makedirs(d, exist_ok=True)
+        procs = []
+        for s in range(shards):
+            part = exs[s::shards]
+            if not part:
+                continue
+            f = os.path.join(d, "vmt%d.v" % s)
+            with open(f, "w") as fh:
+                fh.write(TRACE_HEADER + "\n".join(part) + "\n")
+            p = subprocess.Popen(["coqc", "-q", "-noglob", "-Q", os.path.join(C.COQ, "theories"), "RaftLog", f],
+                                 cwd=d, stdout=subprocess.PIPE, stderr=subprocess.STDOUT, text=True)
+            procs.append((p, f))
+        fails = []
+        for p, f in procs:
+            try:
+                out, _ = p.communicate(timeout=timeout)
+            except subprocess.TimeoutExpired:
+                p.kill()
+                out = "timeout"
+            if p.returncode != 0:
+                fails.append("%s: %s" % (os.path.basename(f), out[-800:]))
+    finally:
+        HEADER = keep
+    return len(exs), fails
